@@ -109,10 +109,6 @@ def stepDial (op impl : String) : StepOut := Id.run do
       let dcidlen := dNat ((getKV t "dcidlen").getD "0")
       let minsz := ((getKV t "minsz").getD "-1").toInt?.getD (-1)
       let sizes : List Nat := if minsz < 0 then [] else [minsz.toNat]
-      -- LISTED finding (fixes/C02-zero-scid-transport-reuse.diff): a later dial on the SAME transport with zero-length
-      -- source connection IDs loses its routing when the previous connection's grace period ends
-      let zeroReuse := getKV a "tr" == some "same" && decide (2 ≤ i) &&
-        (match acc.spec with | some s => s.scidLen == 0 | none => false)
       let mut tags : List String := [if i ≤ 1 then "dial:first" else "dial:redial"]
       if faulty then tags := tags ++ ["dial:faults"]
       if srv ≠ "def" then tags := tags ++ [s!"srv:{srv}"]
@@ -134,7 +130,6 @@ def stepDial (op impl : String) : StepOut := Id.run do
         | none => tags := tags ++ ["dial:noflight"]
         | some r =>
           let (allowed, tg) := allowedOuts r faulty
-          let allowed := if zeroReuse then allowed ++ timeouts else allowed
           predOut := if allowed.contains implOut then implOut else allowed.headD "ok"
           predAdv := fmtConnID (advSeen r)
           -- a dial that times out may die before the server got to see the parameters
@@ -152,7 +147,7 @@ def stepDial (op impl : String) : StepOut := Id.run do
         if i ≤ 1 then
           fails := fails ++ [("first_dial_succeeds", "-", s!"base={base} der={der} srv={srv} faults={faults}: {implOut}")]
         else
-          fails := fails ++ [("redial_succeeds", if zeroReuse && timeouts.contains implOut then "zero_scid_transport_reuse" else "-", s!"dial {i} on {if fresh then "a fresh" else "the same"} spec value base={base} der={der} srv={srv} faults={faults}: {implOut}")]
+          fails := fails ++ [("redial_succeeds", "-", s!"dial {i} on {if fresh then "a fresh" else "the same"} spec value base={base} der={der} srv={srv} faults={faults}: {implOut}")]
       -- the two specific ways a reused spec value used to fail (fixed by 4b5b79e), reported under their own names
       if wf && implOut.endsWith ":iscid_mismatch" then
         fails := fails ++ [("advertises_own_scid", "-", s!"dial {i} ({draws.length} attempt(s)): the ClientHello advertises initial_source_connection_id {(getKV t "adv").getD "?"}, the long header carries {fmtConnID draws.getLast?}")]
@@ -161,8 +156,7 @@ def stepDial (op impl : String) : StepOut := Id.run do
       if implOut == "ok" then
         let up := (getKV t "up").getD ""; let down := (getKV t "down").getD ""
         if !(dataOK up && dataOK down) then
-          let lost := (up.splitOn ":").any (timeouts.contains ·) || (down.splitOn ":E:").any (fun x => timeouts.contains ("E:" ++ x)) || up == "E:open" || up == "E:write"
-          fails := fails ++ [("data_both_ways", if zeroReuse && lost then "zero_scid_transport_reuse" else "-", s!"dial {i}: up={up} down={down}")]
+          fails := fails ++ [("data_both_ways", "-", s!"dial {i}: up={up} down={down}")]
       if wf && base ≠ "none" then
         if 0 ≤ minsz && minsz < 1200 then
           fails := fails ++ [("flight_legal", "-", s!"dial {i}: an Initial datagram of {minsz} bytes")]
